@@ -1,6 +1,13 @@
-"""C15: event managers (G-mode exhaustive product)."""
+"""C15: event managers (G-mode exhaustive product) and their clients UART / Timer / GPIOIn (G-mode + T-mode)."""
+import json
+import os
+import random
+
 from ..gcheck import GFamily, run_batches
+from .. import tracecheck
 from ..families import event as fam
+from ..families import eventclients as cfam
+from ..report import ROOT, load_findings
 
 INVS = ["IrqMeansPendingAndEnabled", "PendingRule", "ClearOnlyByW1C", "StatusShowsRaw", "EnableIsWritten",
         "SharedIrqIsOr", "ReadBack"]
@@ -9,11 +16,113 @@ FAMILY = GFamily("event/EventGraph", "event/EventTrace", "harness.families.event
                  describe=lambda s: "EventManager(kinds=%s, mgr=%s)" % (s["kinds"], s["mgr"]))
 
 
+# clients of the event manager (contract specs/event/ClientContract.tla)
+CL_INVS = ["ClientIrqMeansPendingAndEnabled", "ClientPendingRule", "ClientClearOnlyByW1C", "ClientEnableIsWritten",
+           "ClientReadBack", "ClientStatusIsCondition", "UartFlagsMatchPhy", "RxHeadIsOldest", "RxReadableInTime",
+           "RxFullOnlyWhenFull", "TxHeadIsOldest", "TxDeliveredInTime", "TxFullOnlyWhenFull"]
+
+
+def _cdesc(s):
+    return {"uart": "UART(%s, depth=%d)" % (s.get("dir", "rx+tx"), s.get("depth", 2)), "timer": "Timer(width=32)",
+            "gpio": "GPIOIn(pins=%d, with_irq%s)" % (s.get("pins", 1), ", env=%s" % s["env"] if s.get("env") else "")}[s["cls"]]
+
+
+CLIENTS = GFamily("event/ClientGraph", "event/ClientTrace", "harness.families.eventclients:make", fmt="hash",
+                  clause_map={k: k for k in CL_INVS}, describe=_cdesc)
+NOTES_FINDINGS = os.path.join(ROOT, "notes", "C15b_findings.json")
+
+
+def _notes_findings(report):
+    """entries of notes/C15b_findings.json for this property whose id /verif/known_findings.json does not list yet"""
+    try:
+        with open(NOTES_FINDINGS) as f:
+            entries = json.load(f)
+    except FileNotFoundError:
+        return
+    have = {f.get("id") for f in load_findings()} | {f.get("id") for f in report.findings}
+    for e in entries:
+        if e.get("property") == report.prop and e.get("id") not in have:
+            report.findings.append(e)
+
+
+def client_trace(spec, cfg, ncycles, rnd, pidle):
+    """cycle-by-cycle run of a real client on the reference evaluator (no state loading) under a random legal
+    environment (software operations from cfg["ops"], PHY / pad activity per kind)"""
+    from ..fhdl_step import Stepper
+    dut, ins, outs = cfam.make(spec)
+    st = Stepper(dut, ins, outs, engine="ref")
+    st.load(st.reset_state, tuple(0 for _ in ins))
+    ops = cfg["ops"]
+    pprev = ptog = 0
+    slow = rnd.random() < 0.5
+    ev = []
+    for _ in range(ncycles):
+        op = ops[0] if rnd.random() < pidle else rnd.choice(ops)
+        x = [0, 0, 0]
+        if cfg["kind"] == "uart":
+            if cfg["rxchars"] and rnd.random() < 0.4:
+                x[0], x[1] = 1, rnd.choice(cfg["rxchars"])
+            x[2] = rnd.choice(cfg["txrdy"])
+        elif cfg["kind"] == "gpio":
+            p = pprev
+            for n in range(cfg["pins"]):
+                if not (ptog >> n) & 1 and rnd.random() < (0.08 if slow else 0.4):      # b2b = 0: never twice in a row
+                    p ^= 1 << n
+            x[0] = p
+            ptog, pprev = p ^ pprev, p
+        iv = list(op) + x
+        st.load(st.state(), tuple(iv))
+        o = [int(v) for v in st.peek()]
+        st.tick()
+        ev.append([iv, o])
+    return ev
+
+
+def run_client_tmode(report, tier, seed):
+    rnd = random.Random(seed * 15485863 + 11)
+    ntr = 3 if tier == "quick" else 12
+    ncyc = 300 if tier == "quick" else 1500
+    traces, meta = [], []
+    for spec, cfg in cfam.tmode_configs(tier):
+        for k in range(ntr):
+            traces.append({"cfg": cfg, "ev": client_trace(spec, cfg, ncyc, rnd, rnd.choice([0.2, 0.6, 0.9]))})
+            meta.append(spec)
+    fails, st = tracecheck.validate(CLIENTS.trace_module, traces, CL_INVS)
+    report.add(traces_validated_against_impl=len(traces), trace_states=st["states"])
+    report.sample({"client_trace_head": {"dut": CLIENTS.describe(meta[0]), "first_cycles": traces[0]["ev"][:4]}})
+    for f in fails:
+        spec = meta[f["tid"]]
+        tr = traces[f["tid"]]
+        sched = [e[0] for e in tr["ev"][:f["l"]]]
+        report.violation({"dut": spec, "clause": f["clause"]},
+                         {"family": CLIENTS.graph_module, "factory": CLIENTS.factory_path, "spec": spec,
+                          "cfg": tr["cfg"], "schedule": sched, "trace_module": CLIENTS.trace_module,
+                          "trace_invariants": CL_INVS, "observed": tr["ev"][:f["l"]], "clause": f["clause"]},
+                         "%s violated by %s in a recorded trace at cycle %s" % (
+                             f["clause"], CLIENTS.describe(spec), f["l"]))
+
+
 def run(prop, report, tier, seed):
+    _notes_findings(report)
     cfgs = fam.configs(tier)
     report.assume("one CSR bus operation per cycle; 8-bit CSR bus; managers with 1-3 sources; the W1C clear may "
                   "take 1..3 cycles from the bus write to the source's clear strobe")
     stats = run_batches(FAMILY, report, [cfgs[i:i + 6] for i in range(0, len(cfgs), 6)], INVS, [],
                         spec_budget=400000)
     report.add(duts_explored=len(stats), clauses=INVS, per_dut=stats)
+    # ---- clients: UART (harness PHY), Timer, GPIOIn(with_irq), each behind a real CSRBank
+    report.assume("clients: software issues one CSR operation per cycle from the listed alphabet (cfg.ops in the "
+                  "evidence samples); UART directions explored separately in G-mode (FIFO depth 2) and together in "
+                  "T-mode (depth 4); Timer is the 32-bit core with loads/reloads written through the low byte; "
+                  "GPIOIn: the cycle in which mode/edge of a pin changes leaves that pin's pending bit free, pads "
+                  "change at most once in two consecutive cycles (the two recorded GPIO findings are demonstrated "
+                  "in environments without these two restrictions)")
+    ccfgs = cfam.configs(tier)
+    cstats = run_batches(CLIENTS, report, [ccfgs], CL_INVS, [], spec_budget=1500000, total_budget=4000000)
+    report.add(duts_explored=len(cstats), clauses=CL_INVS, per_dut=cstats)
+    for spec, cfg in ccfgs:
+        report.sample({"client": CLIENTS.describe(spec), "software_ops": cfg["ops"][:12], "registers": cfg["regs"]}, cap=12)
+    dstats = run_batches(CLIENTS, report, [cfam.demo_configs()], CL_INVS, [], spec_budget=200000, followup=False)
+    report.add(duts_explored=len(dstats), per_dut=dstats)
+    run_client_tmode(report, tier, seed)
     report.cov["exhaustive"] = True
